@@ -962,8 +962,7 @@ def _deviations(case, o):
     for key, cols in (('t0', case['c0']), ('t1', case['c1'])):
         bad = [(k, c) for (_, k), c in zip(sch, cols) if not _col_valid(k, c)]
         if bad:
-            tag = ('C19-flat-encoded-column-multichar-entries' if all(_only_multichar_strand(k, c) for k, c in bad)
-                   else 'C19-int-column-mixed-magnitude-float64' if all(_mixed_big(c) for k, c in bad) else None)
+            tag = 'C19-flat-encoded-column-multichar-entries' if all(_only_multichar_strand(k, c) for k, c in bad) else None
             dev.append((-1, ['construct', key], o[key], tag))
         else:
             cc = [_in_col(k, c) for (_, k), c in zip(sch, cols)]
@@ -971,9 +970,7 @@ def _deviations(case, o):
                 want_rows = [tuple(r) for r in zip(*cc)]
                 got = rows(o[key])
                 if got != want_rows:
-                    tag = ('C19-int-column-mixed-magnitude-float64'
-                           if _only_rounding(want_rows, got) == {'z'} and any(_mixed_big(c) for c in cols) else None)
-                    dev.append((-1, ['construct', key], o[key], tag))
+                    dev.append((-1, ['construct', key], o[key], None))
     for i, (op, ob) in enumerate(zip(case['prog'], o['steps'])):
         n = len(cur)
         k = op[0]
@@ -1026,12 +1023,6 @@ def _deviations(case, o):
                 tag = 'C19-add-fields-zero-rows'
             elif k == 'sort' and ob.get('err') == 'TypeError' and sch[op[1]][1] in ('id', 'str', 'dna'):
                 tag = 'C19-sort-by-string-column'
-            elif (k in ('replace', 'rows') and want[0] == 'tab' and got_rows is not None
-                  and _only_rounding(want[1], got_rows) == {'z'}
-                  and (_mixed_big(op[2]) if k == 'replace' else _rows_mixed(cur))):
-                tag = 'C19-int-column-mixed-magnitude-float64'
-            elif k == 'replace' and want[0] == 'err' and got_rows is not None and _mixed_big(op[2]):
-                tag = 'C19-int-column-mixed-magnitude-float64'
             elif k in ('catr', 'catl', 'cats', 'cat3', 'replace') and want[0] == 'tab' and got_rows is not None and _only_rounding(want[1], got_rows):
                 kinds = _only_rounding(want[1], got_rows)
                 tag = 'C19-int-list-column-promoted-to-float64' if kinds == {'l'} else 'C19-int-column-promoted-to-float64' if kinds == {'z'} else None
@@ -1061,14 +1052,31 @@ def _deviations(case, o):
     if len(lazy_errs) != len(twin_errs):
         dev.append((-2, ['lazy-errors'], None, None))
     else:
-        ragged = any(_has_ragged(kk) for _, kk in case['schema'])
-        for i, (a, b) in enumerate(zip(twin_errs, lazy_errs)):
+        # per-column state of the unobserved run: a ragged column is an unmaterialised view after take / mask / slice /
+        # sort_by, stays one through replace of another column and add_fields, and is rebuilt by everything else
+        def rag(c):
+            return c[0] == 'rag' or (c[0] == 'nest' and any(x[0] == 'rag' for x in c[1]))
+        views = [False] * len(case['schema'])
+        for i, (op, st, a, b) in enumerate(zip(case['prog'], o['steps'], twin_errs, lazy_errs)):
+            if op[0] == 'index':
+                predicted = a or any(views)
+                if a != b:
+                    tag = 'C19-single-index-of-unmaterialised-ragged-view' if (b and not a and predicted) else None
+                    dev.append((i, op, dict(err='raised only when the table was not looked at before'), tag))
+                elif predicted != b:
+                    dev.append((i, op, dict(err='single index on an unmaterialised ragged view did not raise'), None))
+                continue
             if a != b:
-                op = case['prog'][i]
-                tag = ('C19-single-index-of-unmaterialised-ragged-view'
-                       if op[0] == 'index' and b and not a and ragged
-                       and any(p[0] in ('take', 'mask', 'slice', 'sort') for p in case['prog'][:i]) else None)
-                dev.append((i, op, dict(err='raised only when the table was not looked at before'), tag))
+                dev.append((i, op, dict(err='the unobserved run %s here, the observed one did not' % ('raised' if b else 'did not raise')), None))
+            if 'cols' in st:
+                if op[0] in ('take', 'mask', 'slice', 'sort'):
+                    views = [rag(c) for c in st['cols']]
+                elif op[0] == 'replace':
+                    views = [False if j == op[1] else v for j, v in enumerate(views)]
+                elif op[0] == 'add':
+                    views = views + [False]
+                else:
+                    views = [False] * len(st['cols'])
     return dev
 
 
